@@ -185,6 +185,12 @@ class InitFlow:
                 continue
             if e == "store":
                 exact = set()
+                val_ = x.get("val")
+                if isinstance(val_, tuple) and val_ and val_ in roots and x["lv"][0] == "idx" and \
+                        (sym.root_of(x["lv"]) or ("?",))[0] == "var":
+                    # the object's address goes into a local table of pointers: later accesses through table[expr] cannot be
+                    # attributed, so the object gets the benefit of the doubt from here on (no refutation)
+                    self._event(roots[val_], (), "W", first, defined, local_events, x["l"], "address stored in a local pointer table", prefix=True)
                 self._reads(x["val"], roots, first, defined, local_events, x["l"], exact)
                 self._reads_index(x["lv"], roots, first, defined, local_events, x["l"])
                 if x["op"] != "=":
